@@ -578,6 +578,48 @@ CHECKS["C07"] = {
     ],
 }
 
+# ---------------------------------------------------------------------------------------------
+# C15 (reduced): symbolic execution of varlink::listen's loop (rustc MIR), environment = nondeterministic stubs
+C15_MODELS = [
+    "MIR symbolic execution (smt/mirsym.py, smt/c15.py); the environment is replaced by nondeterministic stubs:",
+    "Listener::accept(wait) -> a connection, a Timeout error (only when wait > 0: accept(0) blocks) or another error - one successor "
+    "path each, recorded with the wait it was given; time = the sum of the waits that timed out",
+    "AtomicBool::load on the stop flag, ThreadPool::num_busy -> an arbitrary value at every read",
+    "ThreadPool::new / execute -> recorded events (the pool itself is the subject of C14); Listener::new / set_nonblocking -> Ok or Err",
+    "Option::as_ref / unwrap_or -> their definitions; Option::map(closure) -> the closure's own MIR is executed (the poll quantum)",
+    "Arc::new / clone / deref -> aliases; Try::branch / FromResidual -> the `?` contract; Error::kind -> the kind the error was built with",
+]
+CHECKS["C15"] = {
+    "design_ref": "3/C15",
+    "rule": CHECKS["C19"]["rule"].replace("varlink-certification server process (built from the same copy)",
+                                          "varlink::listen on a unix socket, timed"),
+    "no_common_assumptions": True,
+    "harnesses": [
+        H(n, engine="smt", script="c15.py", tiers=t, timeout=(1500, 5400),
+          functions=["varlink::listen (rustc MIR): the accept loop, idle countdown, stop flag, hand-over to the pool"],
+          symbolic="idle_timeout (0..%s s); the outcome of every accept; every value read from the stop flag and the busy count" % rng,
+          bounds="runs of at most %d accept calls (longer runs are cut and counted); %s" % (k, what), stubs=C15_MODELS)
+        for n, t, k, rng, what in (
+            ("c15_listen_nostop_8", ("quick", "thorough"), 8, "5", "no stop flag: one wait covers the whole idle time"),
+            ("c15_listen_stopflag_11", ("quick", "thorough"), 11, "1", "stop flag configured: 100 ms polls, an idle second is 10 of them"),
+            ("c15_listen_nostop_12", ("thorough",), 12, "5", "no stop flag"),
+            ("c15_listen_stopflag_13", ("thorough",), 13, "1", "stop flag configured"),
+        )
+    ],
+    "assumptions": [
+        "reduced claim: the decision logic of the accept loop. A Timeout error is returned only when the waits that timed out since the "
+        "last accepted connection add up to at least idle_timeout and the busy count just read is 0; with a stop flag and "
+        "idle_timeout 0 it never times out; Ok is returned only when the stop flag was just read true, and a flag read true ends "
+        "the loop at that poll; any other accept error is returned; every accepted connection is handed to the pool before the "
+        "next accept",
+        "outside: that ThreadPool's drop joins the workers so that listen returns only after all connections are served and no reply "
+        "is truncated (drop glue is not executed; C14 covers the pool's scheduling), Listener::drop unlinking the socket path, "
+        "select()'s real timing, runs longer than the accept bound",
+        "the native confirmation plays four real-time situations (idle server; a held connection; stop flag set; unset stop flag) "
+        "against the real varlink::listen rather than the solver's exact trace, which a real kernel cannot be made to follow",
+    ],
+}
+
 # Duplicate detection / order of appearance in IDL::from_token (harness/parser/c11.rs, not mounted) was attempted
 # twice with Kani and is not part of the claim: see DESIGN.md section 3/C11.
 
